@@ -7,7 +7,7 @@ import numpy as np
 import common
 from opalg_gen import DTS, enc, encs, is_cplx, is_nested, size
 
-CLASSES = ["mat", "diag", "bdiag", "sid", "ident", "lin", "linauto", "composed", "nonlin"]
+CLASSES = ["mat", "diag", "bdiag", "bdiagNS", "sid", "ident", "lin", "linauto", "composed", "nonlin"]
 
 
 def vals(rng, shape, cplx, nonzero=False):
@@ -52,6 +52,11 @@ def leaf(rng, cls, insh, outsh, dt_of):
             return None
         dt = dt_of()
         return {"t": "mat", "m": m, "n": n, "dt": dt, "A": encs(vals(rng, (m, n), is_cplx(dt)))}
+    if cls == "bdiagNS":
+        # broadcasting diagonal that is not square (input_shape != output_shape)
+        if insh == outsh:
+            return None
+        cls = "bdiag"
     if cls in ("diag", "bdiag"):
         if is_nested(insh) != is_nested(outsh):
             return None
@@ -75,6 +80,8 @@ def leaf(rng, cls, insh, outsh, dt_of):
         dsh = opts[int(rng.integers(len(opts)))]
         e = {"t": "diag", "dsh": dsh, "ddt": ddt, "insh": None if dsh == list(insh) else list(insh), "indt": None,
              "d": encs(vals(rng, (size(dsh),), is_cplx(ddt)))}
+        if rng.random() < 0.3:
+            e["indt"] = dt_of()  # explicit input_dtype (may differ from the dtype of the diagonal)
         return e
     if cls == "sid":
         if insh != outsh:
@@ -170,7 +177,7 @@ def dtype_regime(rng):
 
 def any_leaf(rng, insh, outsh, dt_of, weights=None):
     order = list(rng.permutation(len(CLASSES)))
-    w = weights or {"mat": 3, "diag": 3, "bdiag": 2, "sid": 2, "ident": 1.5, "lin": 2, "linauto": 1.5, "composed": 1, "nonlin": 0.6}
+    w = weights or {"mat": 3, "diag": 3, "bdiag": 2, "bdiagNS": 1, "sid": 2, "ident": 1.5, "lin": 2, "linauto": 1.5, "composed": 1, "nonlin": 0.6}
     p = np.array([w[c] for c in CLASSES], dtype=float)
     for _ in range(12):
         cls = CLASSES[int(rng.choice(len(CLASSES), p=p / p.sum()))]
@@ -184,7 +191,7 @@ def tree(rng, depth, insh, outsh, dt_of, p_bad=0.06, allow_nonlin=True):
     """random expression mapping insh -> outsh (mostly well typed; with probability p_bad per node an
     operand gets a different shape, a non-scalar factor is used, ...)"""
     if depth <= 1 or rng.random() < 0.18:
-        w = None if allow_nonlin else {"mat": 3, "diag": 3, "bdiag": 2, "sid": 2, "ident": 1.5, "lin": 2, "linauto": 1.5, "composed": 1, "nonlin": 0}
+        w = None if allow_nonlin else {"mat": 3, "diag": 3, "bdiag": 2, "bdiagNS": 1, "sid": 2, "ident": 1.5, "lin": 2, "linauto": 1.5, "composed": 1, "nonlin": 0}
         return any_leaf(rng, insh, outsh, dt_of, w)
     bad = rng.random() < p_bad
     ops = ["add", "sub", "neg", "smulL", "smulR", "sdiv", "comp", "matmul", "T", "H", "conj"]
@@ -230,24 +237,23 @@ def pair_table(rng):
                                 continue
                             if op in ("hadm", "hadd") and (dta, dtb) == ("complex128", "float64"):
                                 continue
-                            a = leaf(rng, ca, sq, sq, lambda: dta)
-                            shb = [2] if badshape else sq
-                            b = leaf(rng, cb, shb, shb, lambda: dtb)
+                            addlike = op in ("add", "sub", "hadm", "hadd")
+                            ia, oa, ib, ob = sq, sq, sq, sq
+                            if ca == "bdiagNS" and cb == "bdiagNS":
+                                ia, oa = [1, 3], [2, 3]
+                                ib, ob = ([1, 3], [2, 3]) if addlike else ([1, 1], [1, 3])
+                            elif ca == "bdiagNS":
+                                ia, oa = [1, 3], [2, 3]
+                                ib, ob = ([1, 3], [2, 3]) if addlike else ([1, 3], [1, 3])
+                            elif cb == "bdiagNS":
+                                ib, ob = [1, 3], [2, 3]
+                                ia, oa = ([1, 3], [2, 3]) if addlike else ([2, 3], [2, 3])
+                            if badshape:
+                                ib, ob = ([2], [2]) if ib == sq else ([1, 2], [2, 2])
+                            a = leaf(rng, ca, ia, oa, lambda: dta)
+                            b = leaf(rng, cb, ib, ob, lambda: dtb)
                             if a is None or b is None:
-                                # classes that need other shapes (bdiag): use 2-d shapes
-                                a = leaf(rng, ca, [1, 3], [2, 3], lambda: dta) if ca == "bdiag" else a
-                                b = leaf(rng, cb, [1, 3], [2, 3], lambda: dtb) if cb == "bdiag" else b
-                                if badshape or a is None or b is None:
-                                    continue
-                                # make the partner conform where it can
-                                if ca == "bdiag" and cb != "bdiag":
-                                    b2 = leaf(rng, cb, [1, 3], [2, 3], lambda: dtb) if op in ("add", "sub", "hadm", "hadd") else leaf(rng, cb, [1, 3], [1, 3], lambda: dtb)
-                                    b = b2
-                                if cb == "bdiag" and ca != "bdiag":
-                                    a2 = leaf(rng, ca, [1, 3], [2, 3], lambda: dta) if op in ("add", "sub", "hadm", "hadd") else leaf(rng, ca, [2, 3], [2, 3], lambda: dta)
-                                    a = a2
-                                if a is None or b is None:
-                                    continue
+                                continue
                             if op == "hadm":
                                 e = {"t": "had", "div": False, "a": a, "b": b}
                             elif op == "hadd":
